@@ -198,11 +198,11 @@ def run_batch(prop, tier, seed, workers, units_override=None, wall_cap=None, qui
 
 
 def _stream_acc(per_stream, stream, part):
-    s = per_stream.setdefault(stream, {"units": 0, "evaluations": 0, "nontrivial": 0, "failures": 0})
+    s = per_stream.setdefault(stream, {"units": 0, "evaluations": 0, "nontrivial": 0, "runs_flagged_incl_known_findings": 0})
     s["units"] += part["units"]
     s["evaluations"] += part["evaluations"]
     s["nontrivial"] += part["nontrivial"]
-    s["failures"] += sum(part["fail_counts"].values())
+    s["runs_flagged_incl_known_findings"] += sum(part["fail_counts"].values())
 
 
 def determinism_selfcheck(prop, seed, n_units=16, pool_digests=None):
